@@ -269,7 +269,10 @@ def run_query(b, q, mem_gb):
     us = q.get('unwindset', {})
     if us:
         base += ['--unwindset', ','.join('%s:%d' % (k, v) for k, v in us.items())]
-    base += CBMC_FLAGS + list(q.get('cbmc_flags', []))
+    flags = list(CBMC_FLAGS)
+    if q.get('object_bits'):   # optional per-query override (queries that enumerate many paths address more than 2^10 objects)
+        flags[flags.index('--object-bits') + 1] = str(q['object_bits'])
+    base += flags + list(q.get('cbmc_flags', []))
     for sv in solvers:
         if sv in SMT_SOLVERS:
             # exported verification condition decided by an SMT solver; only an UNSAT answer is final (DESIGN.md 1.6)
